@@ -231,6 +231,9 @@ def recheckOps (mf : Path) (present : List Path) : List Op :=
 inductive RenameErr
   | notFound
   | exists
+  /-- `ValueError`: `info.name` has no usable last component (`""`, `.`, `..`); raised by the name
+      handling (`Model/RenameName.lean`, `Impl.renameTarget`), never by `renameOps` -/
+  | badName
   deriving DecidableEq, Repr
 
 /-- `commands.rename` (after `fix: rename keeps the metafile in its directory and never replaces
